@@ -1,1 +1,164 @@
-"""Extra verdict streams beyond sequential script replay (added as they are built)."""
+"""Extra verdict streams beyond sequential script replay."""
+import os, re, json, subprocess
+from concurrent.futures import ThreadPoolExecutor
+
+# ------------------------------------------------------------------------------------------------ thread schedules
+SCHED = {
+    "C19": {
+        "quick": [("take:1 | d1 | d2", 3000), ("take:2 | d1 d2 | d3", 3000), ("take:2 | d1 | d2", 3000), ("take:3 | d1 | d2", 2000),
+                  ("take:1 | d1 d2 | d3", 3000), ("take:1 | d1 | d2 | d3", 3000), ("takemerge:1:2 | d1 | d2", 3000),
+                  ("takemerge:1:2 | d1 t | d2 t", 3000)],
+        "thorough": [("take:1 | d1 | d2", 10**6), ("take:2 | d1 d2 | d3", 10**6), ("take:2 | d1 | d2", 10**6), ("take:3 | d1 | d2", 10**6),
+                     ("take:1 | d1 d2 | d3", 10**6), ("take:1 | d1 | d2 | d3", 150000), ("take:2 | d1 | d2 | d3", 150000),
+                     ("take:2 | d1 d2 | d3 d4", 150000), ("take:3 | d1 d2 | d3 d4", 150000),
+                     ("takemerge:1:2 | d1 | d2", 150000), ("takemerge:1:2 | d1 t | d2 t", 150000), ("takemerge:2:2 | d1 d2 | d3", 150000),
+                     ("takemerge:1:3 | d1 | d2 | d3", 150000)],
+    },
+    "C18": {
+        "quick": [("merge:2 | d1 t | d2 t", 3000), ("merge:2 | g d1 | g d2", 3000), ("merge:2 | g t | g t", 3000), ("merge:2 | d1 e | d2 t", 3000),
+                  ("merge:3 | t | t | t", 3000), ("merge:2 | g | g", 3000),
+                  ("combine:2 | d1 t | d2 t", 3000), ("combine:2 | g | g", 3000), ("combine:2 | t | t", 3000), ("combine:2 | d1 | d2", 3000),
+                  ("combine:2 | d1 d3 | d2", 3000)],
+        "thorough": [("merge:2 | d1 t | d2 t", 10**6), ("merge:2 | g d1 | g d2", 10**6), ("merge:2 | g t | g t", 10**6), ("merge:2 | d1 e | d2 t", 10**6),
+                     ("merge:3 | t | t | t", 10**6), ("merge:2 | g | g", 10**6), ("merge:2 | g d1 t | g d2 t", 150000),
+                     ("merge:2 | d1 d2 t | d3 d4 t", 150000), ("merge:3 | d1 t | d2 t | d3 t", 150000), ("merge:3 | d1 t | d2 e | d3 t", 150000),
+                     ("merge:3 | g | g | g", 150000),
+                     ("combine:2 | d1 t | d2 t", 10**6), ("combine:2 | g | g", 10**6), ("combine:2 | t | t", 10**6), ("combine:2 | d1 | d2", 10**6),
+                     ("combine:2 | d1 d3 | d2", 10**6), ("combine:2 | d1 d3 t | d2 d4 t", 150000), ("combine:3 | d1 | d2 | d3", 150000),
+                     ("combine:3 | t | t | t", 150000), ("combine:2 | g d1 | g d2", 150000)],
+    },
+}
+
+
+def parse_outcome(txt):
+    m = re.match(r"greets=(\d+) datas=\[(.*?)\] terms=(\d+) errs=(\d+) upTerms=(\d+) termWhileData=(\w+) afterTerm=(\d+) panics=(\d+)", txt.strip())
+    if not m:
+        return None
+    datas = [d for d in re.findall(r"\[[^\]]*\]|[^,\[\]]+", m.group(2))] if m.group(2) else []
+    return dict(greets=int(m.group(1)), datas=datas, terms=int(m.group(3)), errs=int(m.group(4)), upTerms=int(m.group(5)),
+                termWhileData=m.group(6) == "true", afterTerm=int(m.group(7)), panics=int(m.group(8)))
+
+
+def oracle(scenario, o):
+    """the property's verdict on one observable outcome of the REAL crate; returns a list of clause names that fail"""
+    parts = [p.strip() for p in scenario.split("|")]
+    op = parts[0].split(":")
+    threads = [p.split() for p in parts[1:]]
+    sent = [a[1:] for t in threads for a in t if a.startswith("d")]
+    bad = []
+    if o["panics"] > 0:
+        bad.append("panic")
+    if op[0] in ("take", "takemerge"):
+        mx = int(op[1])
+        if len(o["datas"]) > mx:
+            bad.append("overDelivery")
+        if o["terms"] > 1:
+            bad.append("sinkTerminatedTwice")
+        if op[0] == "take" and o["upTerms"] > 1:
+            bad.append("upstreamTerminatedTwice")
+        if len(o["datas"]) == mx and mx > 0 and not (o["terms"] == 1 and o["upTerms"] >= 1):
+            bad.append("noCompletionAfterNth")
+        if len(set(o["datas"])) != len(o["datas"]) or any(d not in sent for d in o["datas"]):
+            bad.append("dataNotSent")
+    elif op[0] == "merge":
+        failing = any("e" in t for t in threads)
+        all_end = all(t and t[-1] in ("t", "e") for t in threads)
+        n = int(op[1])
+        any_greeted = True
+        if o["greets"] != 1:
+            bad.append("greetCount")
+        if not failing:
+            if sorted(o["datas"]) != sorted(sent):
+                bad.append("dataNotExactlyOnce")
+            if all_end and len(threads) == n and o["terms"] != 1:
+                bad.append("completionCount")
+            if o["terms"] > 1 or o["errs"] > 0:
+                bad.append("completionCount")
+            if o["termWhileData"] or o["afterTerm"] > 0:
+                bad.append("completionBeforeDataReturned")
+        else:
+            if o["errs"] != 1 or o["terms"] != 0:
+                bad.append("errorCount")
+            if len(set(o["datas"])) != len(o["datas"]) or any(d not in sent for d in o["datas"]):
+                bad.append("dataNotExactlyOnce")
+    elif op[0] == "combine":
+        n = int(op[1])
+        if o["greets"] != 1:
+            bad.append("greetCount")
+        for tup in o["datas"]:
+            vals = tup.strip("[]").split(";")
+            if len(vals) != n or any(v not in sent for v in vals):
+                bad.append("incompleteTuple")
+            else:
+                for i, v in enumerate(vals):
+                    if v not in [a[1:] for a in threads[i] if a.startswith("d")]:
+                        bad.append("tupleValueFromWrongMember")
+        all_end = all(t and t[-1] in ("t", "e") for t in threads) and len(threads) == n
+        if o["terms"] > 1 or (all_end and o["panics"] == 0 and o["terms"] != 1):
+            bad.append("completionCount")
+        if o["termWhileData"] or (o["afterTerm"] > 0):
+            bad.append("completionBeforeDataReturned")
+    return sorted(set(bad))
+
+
+def run_sched(prop, tier, seed, ctx):
+    hb = ctx["harness_bin"]("verif")
+    scen = SCHED[prop][tier]
+    def real(sc):
+        p = subprocess.run([hb, "sched-all", str(sc[1])], input=sc[0] + "\n", capture_output=True, text=True, timeout=3500)
+        return p.stdout.strip()
+    with ThreadPoolExecutor(max_workers=16) as ex:
+        reals = list(ex.map(real, scen))
+    model_in = "\n".join(s[0] for s in scen if not s[0].startswith("takemerge")) + "\n"
+    pm = subprocess.run([ctx["CBDRV"], "par"], input=model_in, capture_output=True, text=True, timeout=3500)
+    model = {}
+    for l in pm.stdout.splitlines():
+        parts = l.split(" # ")
+        if len(parts) == 3:
+            model[parts[0].strip()] = set(x.strip() for x in parts[2].split(" ; ") if x.strip())
+    known = ctx["known"]
+    res = dict(coverage=dict(evaluations=0, distinct_nontrivial=0, samples=[], scenarios=[]), known=[], violations=[], mismatches=[])
+    for (sc, limit), line in zip(scen, reals):
+        parts = line.split(" # ")
+        if len(parts) != 3 or parts[1].startswith("?"):
+            res["mismatches"].append(f"sched | {sc} | harness output: {line[:200]}")
+            continue
+        m = re.match(r"schedules=(\d+) complete=(\w+)", parts[1])
+        n, complete = int(m.group(1)), m.group(2) == "true"
+        outs = {}
+        for x in parts[2].split(" ; "):
+            mm = re.match(r"(.*) @(\d*)$", x.strip())
+            if mm:
+                outs[mm.group(1).strip()] = mm.group(2)
+        res["coverage"]["evaluations"] += n
+        res["coverage"]["distinct_nontrivial"] += len(outs)
+        res["coverage"]["scenarios"].append(dict(scenario=sc, schedules=n, exhaustive=complete, outcomes=len(outs),
+                                                 model_outcomes=len(model.get(sc, [])) if sc in model else None))
+        if len(res["coverage"]["samples"]) < 3:
+            k = sorted(outs)[0]
+            res["coverage"]["samples"].append(dict(scenario=sc, schedule=outs[k], outcome=k))
+        # stream 3: outcome sets of model and implementation
+        if sc in model:
+            if complete and set(outs) != model[sc]:
+                res["mismatches"].append(f"sched | {sc} | outcome sets differ: only-real={sorted(set(outs) - model[sc])[:3]} only-model={sorted(model[sc] - set(outs))[:3]}")
+            elif not complete and not set(outs) <= model[sc]:
+                res["mismatches"].append(f"sched | {sc} | real outcome not reachable in the model: {sorted(set(outs) - model[sc])[:3]}")
+        # stream 2: the oracle on the real outcomes
+        op = sc.split("|")[0].strip().split(":")[0]
+        for otxt, sched in outs.items():
+            o = parse_outcome(otxt)
+            bad = oracle(sc, o) if o else ["unparsable"]
+            if not bad:
+                continue
+            hit = None
+            for e in known.get("findings", []):
+                if e["property"] == prop and e["operator"] == op and set(bad) <= set(e["clauses"]):
+                    hit = e
+            if hit:
+                res["known"].append(dict(id=hit["id"], what=f"{sc} @{sched}: {otxt}"))
+            else:
+                res["violations"].append(dict(kind="impl-vs-oracle", scenario=sc, schedule=sched, outcome=otxt, clauses=bad,
+                                              replay_cmd=f"echo '{sc} # {sched}' | harness/target-verif/debug/cbharness sched-run"))
+    res["coverage"]["rule"] = ("evaluations = schedules executed on the real crate (verif build, token scheduler, stateless DFS, per-scenario "
+                               "cap); distinct_nontrivial = distinct observable outcomes over all scenarios; every scenario has >= 2 racing threads")
+    return res
